@@ -8,15 +8,28 @@
      nothing is found the form declares a new variable, so a same-named assignment in an inner function
      is a different variable (TFun);
    * all other forms -- `modify x = v`, `x op= v`, `x ?= v`, `x[i] = v`, `x.f = v`, `x[i] op= v`,
-     `x.f op= v` -- resolve `x` lexically through every enclosing scope (TLex). *)
+     `x.f op= v` -- resolve `x` lexically through every enclosing scope (TLex);
+   * `modify x = v` compiles to store_object, which writes the variable named x that the current function
+     CAPTURED: the nearest binding of x OUTSIDE the current function, whatever locals of the current function
+     are called x as well (TCap).  (It must also pass the lexical reading, TLex, which is what the compiler's
+     own `did_exist_before` looks at.) *)
 From MS Require Import Const.Model.
 
-Inductive target := TFun (x : name) | TLex (x : name).
+Inductive target := TFun (x : name) | TLex (x : name) | TCap (x : name).
+
+(* the nearest binding outside the current function: skip everything up to and including the innermost
+   function scope, then look up lexically *)
+Fixpoint lookup_outer (ss : scopes) (x : name) : option bool :=
+  match ss with
+  | [] => None
+  | s :: r => if is_function s then lookup_all r x else lookup_outer r x
+  end.
 
 Definition resolves_const (ss : scopes) (t : target) : bool :=
   match t with
   | TFun x => is_const (mapped_in_function ss x)
   | TLex x => is_const (lookup_all ss x)
+  | TCap x => is_const (lookup_outer ss x)
   end.
 
 (* what a statement binds in the innermost scope once it is over *)
@@ -46,7 +59,7 @@ Fixpoint writes_expr (ss : scopes) (e : expr) : list (scopes * target) :=
   end
 with writes_stmt (ss : scopes) (s : stmt) : list (scopes * target) :=
   match s with
-  | SAssign c m x rhs => writes_expr ss rhs ++ [(ss, if m then TLex x else TFun x)]
+  | SAssign c m x rhs => writes_expr ss rhs ++ (if m then [(ss, TLex x); (ss, TCap x)] else [(ss, TFun x)])
   | SUnpack c xs rhs => writes_expr ss rhs ++ map (fun x => (ss, TFun x)) xs
   | SReassign l rhs => writes_expr ss l ++ writes_expr ss rhs ++ root_target ss l
   | SExpr e => writes_expr ss e
